@@ -67,6 +67,39 @@ Theorem C19_eq_hash : forall h u v, uri_eqb_on EF u v = true ->
 Proof. exact (eq_hash_on EF HF (proj2 (proj2 (proj2 (proj2 C19_eq_hash_structure))))). Qed.
 Print Assumptions C19_eq_hash.
 
+(* Transport by state (what the serializers carry for a URI object): the state tuple determines the URI, for every
+   port in Z — provided the serializer returns the tuple's values unchanged (C01). *)
+Theorem C19_state_roundtrip : forall u, of_state (to_state u) = Some u.
+Proof. exact state_roundtrip. Qed.
+Print Assumptions C19_state_roundtrip.
+
+(* The name server's store is a map from names to URI texts: after set k v, get k = v also when k was present,
+   other names are untouched, and k has exactly one entry (so listings show the new text only). *)
+Theorem C19_store_get_set : forall s k v, st_get (st_set s k v) k = Some v.
+Proof. exact st_get_set. Qed.
+Print Assumptions C19_store_get_set.
+Theorem C19_store_get_set_other : forall s k v k', k' <> k -> st_get (st_set s k v) k' = st_get s k'.
+Proof. exact st_get_set_other. Qed.
+Print Assumptions C19_store_get_set_other.
+Theorem C19_store_set_single : forall s k v w, In (k, w) (st_set s k v) -> w = v.
+Proof. exact st_set_single. Qed.
+Print Assumptions C19_store_set_single.
+
+(* register(name, <accepted string>) then lookup(name) gives the URI the string denotes, in any store state *)
+Theorem C19_store_lookup_string : forall ns s u st name tagged validate, parse ns s = Some u ->
+  ns_step T ns st (SReg name s tagged validate) = (st_set st name (s, tagged), ORegOk) /\
+  snd (ns_step T ns (st_set st name (s, tagged)) (SLookup name)) = OLookup (Some u).
+Proof. exact (store_lookup_string T). Qed.
+Print Assumptions C19_store_lookup_string.
+
+(* register(name, <URI object>) stores its text form; lookup(name) gives that URI back *)
+Theorem C19_store_lookup_registered : forall ns s u, (0 <= ns)%Z -> parse ns s = Some u -> regular u ->
+  forall u', reordering u u' -> forall st name tagged,
+  ns_step T ns st (SReg name (print u') tagged false) = (st_set st name (print u', tagged), ORegOk) /\
+  snd (ns_step T ns (st_set st name (print u', tagged)) (SLookup name)) = OLookup (Some u').
+Proof. exact (store_lookup_registered T C19_tables_ok). Qed.
+Print Assumptions C19_store_lookup_registered.
+
 (* ---- the deviations: each witness is replayed on the implementation by the harness ---- *)
 (* repaired by fixes/C19_empty_host.diff: with the old `if self.host:` test, PYRO:obj@:55 prints as PYRO:obj *)
 Theorem C19_empty_host_refuted : exists s u,
@@ -142,3 +175,11 @@ Example C19_nonvacuous_noloc_sock :
   parse 9090 (print {| u_proto := PYRO; u_obj := OName [120]%N; u_loc := LSock [47;116;32;115]%N |})
   = Some {| u_proto := PYRO; u_obj := OName [120]%N; u_loc := LSock [47;116;32;115]%N |}.
 Proof. split; vm_compute; reflexivity. Qed.
+
+(* an overwrite history: register n twice with different URIs, look up, list *)
+Example C19_nonvacuous_store :
+  ns_run T 9090 [] [SReg [110]%N [80;89;82;79;58;97;64;104;58;49]%N false true;
+                    SReg [110]%N [80;89;82;79;58;98;64;104;58;50]%N true false; SLookup [110]%N; SList; SYp]
+  = [ORegOk; ORegOk; OLookup (Some {| u_proto := PYRO; u_obj := OName [98]%N; u_loc := LHost [104]%N 2 |});
+     OListing [([110], [80;89;82;79;58;98;64;104;58;50])]%N; OListing [([110], [80;89;82;79;58;98;64;104;58;50])]%N].
+Proof. vm_compute. reflexivity. Qed.
